@@ -6,7 +6,7 @@ From BV Require Import Base.Prelude Model.Block Model.ForkDB Model.Forkable Mode
   Model.Burst Model.Hub Model.CursorResolver Model.Joining
   Spec.Consumer Spec.Universe Check.Burst_Check Check.C07_Check Spec.C06_Spec Spec.C07_Spec Spec.C09_Spec Spec.C13_Spec
   Spec.C07_Compose_Spec Spec.C07_Shapes_Spec Spec.C07_More_Spec Spec.C07_Final_Spec Spec.C07_FinalUnfixed_Spec Spec.C07_Fuel_Spec
-  Proofs.C07_ComposeRun Proofs.C07_ComposeCheck Proofs.C07_FullRefuted Proofs.C07_Shapes Proofs.C07_FiltersNum Proofs.C07_FiltersCursor Proofs.C07_FiltersTarget Proofs.C07_Final Proofs.C07_FinalMem Proofs.C07_FinalRefuted Proofs.C07_Fuel
+  Proofs.C07_ComposeRun Proofs.C07_ComposeCheck Proofs.C07_FullRefuted Proofs.C07_Shapes Proofs.C07_FiltersNum Proofs.C07_FiltersCursor Proofs.C07_FiltersTarget Proofs.C07_Final Proofs.C07_FinalMem Proofs.C07_FinalCursor Proofs.C07_FinalRefuted Proofs.C07_Fuel
   Properties.C07_Compose.
 Local Open Scope N_scope.
 
@@ -68,6 +68,13 @@ Print Assumptions c07_final_cursor_refuted.
 Theorem c07_final_increasing : C07_final_increasing.
 Proof. exact c07_final_increasing_proof. Qed.
 Print Assumptions c07_final_increasing.
+
+(* final blocks only, CURSOR mode (cursor on a final canonical block), any stop block: the first delivered block is the
+   child of the cursor block, each delivered block extends the previous one; complete on the final chain.  World
+   hypotheses only *)
+Theorem c07_seamless_cursor_final : C07_seamless_cursor_final_full.
+Proof. exact c07_seamless_cursor_final_proof. Qed.
+Print Assumptions c07_seamless_cursor_final.
 
 (* the fuel: a run ends with JFuel only if a burst of the hub exceeds the explicit bound (or through the fuel of the
    hub's lookups / the cursor resolver); partial: the bound is a hypothesis, the stream's fuel does not cover every world *)
@@ -242,4 +249,35 @@ Proof.
   split; [vm_compute; tauto|]. split; [reflexivity|].
   split; [exists (cx_b 5); split; [vm_compute; tauto | vm_compute; reflexivity]|].
   vm_compute. reflexivity.
+Qed.
+
+(* final blocks only from a cursor: the world of c07_final_cursor_refuted (cursor on the final block 12, ahead of the hub's
+   LIB 10; longer tail of arrivals fc_w2) meets every hypothesis of c07_seamless_cursor_final; the stream delivers 13, 14
+   (Proofs/C07_FinalRefuted.c07_final_cursor_witness_run) *)
+Definition fc_canon2 : list block := map fo_b [2;3;4;5;6;7;8;9;10;11;12;13;14;15;16;17;18].
+Example c07_cursor_final_nonvacuous_hyps :
+  wf_b fc_canon2 = true /\ lib_ok_b LNone fc_canon2 = true /\
+  hub_of_universe fc_canon2 fc_c fc_w2 /\
+  chain_ok fc_canon2 /\ incl fc_canon2 fc_canon2 /\
+  eventual_tip fc_c fc_w2 fc_canon2 /\
+  j_mode fc_c = 1 /\ j_cursor fc_c = Some fc_cu /\ j_filter fc_c = 1 /\ 0 < j_bundle fc_c /\
+  on_final_block fc_cu = true /\
+  from_num (rn (cu_lib fc_cu)) fc_canon2 = fo_b 12 :: map fo_b [13;14;15;16;17;18] /\
+  bref (fo_b 12) = cu_lib fc_cu /\ bref (fo_b 12) = cu_blk fc_cu.
+Proof.
+  split; [vm_compute; reflexivity|]. split; [vm_compute; reflexivity|].
+  split.
+  { split.
+    - exists fc_l. split; [|reflexivity]. intros b p Hin. unfold fc_l in Hin. apply in_map_iff in Hin as (n & E & Hn). injection E as <- <-.
+      split; [|intros x []]. vm_compute in Hn. repeat (destruct Hn as [<-|Hn]; [vm_compute; tauto|]). destruct Hn.
+    - intros b Hb. vm_compute in Hb. vm_compute. tauto. }
+  split.
+  { split.
+    - vm_compute. repeat split.
+    - apply (NoDup_map_inv (fun x => x)). rewrite map_id. vm_compute.
+      repeat (constructor; [cbn; intros K; repeat (destruct K as [K|K]; [discriminate|]); exact K|]). constructor. }
+  split; [intros b Hb; exact Hb|].
+  split; [apply eventual_tip_b_sound; vm_compute; reflexivity|].
+  split; [reflexivity|]. split; [reflexivity|]. split; [reflexivity|]. split; [reflexivity|]. split; [reflexivity|].
+  split; [vm_compute; reflexivity|]. split; reflexivity.
 Qed.
